@@ -1,9 +1,11 @@
 #!/usr/bin/env python3
-"""import_seeded.py <ID> <VARIANT> <confirm-log> : copies a confirmed seeded change into /verif/seeded/<ID>_<VARIANT>/"""
+"""import_seeded.py <ID> <VARIANT> <confirm-log> [<DEST-VARIANT>] : copies a confirmed seeded change from /tmp/mut_<ID>/<VARIANT> into
+/verif/seeded/<ID>_<DEST-VARIANT>/ (later batches reuse the source letters A/B and are stored as C/D, ...)"""
 import json, os, re, shutil, sys
 pid, var, log = sys.argv[1], sys.argv[2], sys.argv[3]
 src = "/tmp/mut_%s/%s" % (pid, var)
-dst = "/verif/seeded/%s_%s" % (pid, var)
+dvar = sys.argv[4] if len(sys.argv) > 4 else var
+dst = "/verif/seeded/%s_%s" % (pid, dvar)
 line = next((l.strip() for l in open(log) if l.startswith("RESULT %s/%s " % (pid, var))), None)
 if not line or "clean+demo rc=0" not in line or "mutated(existing tests only) rc=0" not in line or re.search(r"mutated\+demo rc=0\b", line):
     print("NOT CONFIRMED", pid, var, line); sys.exit(1)
@@ -12,7 +14,7 @@ for f in os.listdir(src):
     if os.path.isfile(os.path.join(src, f)) and os.path.getsize(os.path.join(src, f)) < 200000:
         shutil.copy(os.path.join(src, f), dst)
 notes = open(os.path.join(src, "NOTES.md")).read() if os.path.exists(os.path.join(src, "NOTES.md")) else ""
-meta = {"property": pid, "variant": var,
+meta = {"property": pid, "variant": dvar,
         "breaks": "see NOTES.md (written by the sub-agent that produced the change, which saw only the property text)",
         "needs_to_manifest": notes[:1200],
         "confirmed_by": "tools/confirm_seeded.sh %s %s (scratch worktree of /repo HEAD under /tmp, removed afterwards)" % (pid, var),
